@@ -298,6 +298,44 @@ func checkC06(c *Ctx) {
 			c.Sample(map[string]interface{}{"source": src, "events": e})
 		}
 	}
+	// name clashes, systematically: a user text / movement named like the k-th generated label of a
+	// script that allocates two of each, written before or after that script
+	for _, kind := range []string{"text", "movement"} {
+		for k := 0; k < 3; k++ {
+			for _, before := range []bool{true, false} {
+				script := Top{K: "script", Name: "Own", Body: []Stmt{
+					{K: "cmd", Toks: []string{"m1", "@inl0"}, Inl: []Inline{{Kind: "text", Parts: []string{"one"}}}},
+					{K: "cmd", Toks: []string{"m2", "1", ",", "@inl0"}, Inl: []Inline{{Kind: "moves", Steps: []ListItem{{Name: "walk_up"}}}}},
+					{K: "cmd", Toks: []string{"m3", "@inl0"}, Inl: []Inline{{Kind: "text", Parts: []string{"two"}}}},
+					{K: "cmd", Toks: []string{"m4", "1", ",", "@inl0"}, Inl: []Inline{{Kind: "moves", Steps: []ListItem{{Name: "walk_down"}}}}}}}
+				var user Top
+				if kind == "text" {
+					user = Top{K: "text", Name: fmt.Sprintf("Own_Text_%d", k), Text: &TextLit{Parts: []string{"mine"}}}
+				} else {
+					user = Top{K: "movement", Name: fmt.Sprintf("Own_Movement_%d", k), Items: []ListItem{{Name: "face_left"}}}
+				}
+				f := &File{Tops: []Top{script, user}}
+				if before {
+					f.Tops = []Top{user, script}
+				}
+				src, _ := RenderFile(f, Style{R: r, Layout: 1})
+				o := Opts{Optimize: true}
+				res := Compile(src, o)
+				if res.Panic != "" || res.TimedOut {
+					c.Violate(Violation{What: "compiler panicked or hung on a well-formed file", Source: src, Opts: &o})
+					continue
+				}
+				id := fmt.Sprintf("clash.%s.%d.%v", kind, k, before)
+				e, err := hoistEvents(id, f, res)
+				if err != nil {
+					c.Fatal("building events: %v", err)
+					return
+				}
+				evs = append(evs, e...)
+				files[id] = rec{src, o, res.Out + fmt.Sprint(res.Err), e}
+			}
+		}
+	}
 	// the exhaustive family of occurrence sequences (GenHoist.tla)
 	maxLen, every := 3, 1
 	if !c.Quick() {
